@@ -186,6 +186,39 @@ def h05_rabbit(S, via="enqueue"):
     S.check("message-id-carried", pub["properties"].message_id == "d1")
 
 
+def h05_job(S):
+    """Job(deferred_until, deferred_by).enqueue(): the first run is not handed over before deferred_until."""
+    from repid import Job
+
+    e = S.int("enqueue_at_us", Y2000, Y2050)
+    T = S.int("deferred_until_us", Y2000, Y2050)
+    has_by = S.flag("has_deferred_by")
+    p = S.int("deferred_by_us", SEC, 40 * 86400 * SEC) if has_by else None
+    now = S.int("consume_at_us", Y2000, Y2050)
+    S.assume(T > e)
+    S.assume(now >= e)
+    clock = PinnedClock(e)
+    out = {}
+
+    async def main(loop):
+        w = World()
+        await w.open(record=False)
+        await Job("job", id_="d1", deferred_until=S.datetime_us(T), deferred_by=S.timedelta_us(p) if has_by else None,
+                  _connection=w.conn).enqueue()
+        clock.set(now)
+        cons = w.broker.get_consumer("default", ["job"])
+        await cons.start()
+        out["got"] = await try_consume(cons)
+
+    run_async(main, clock=clock)
+    if out["got"] is not None:
+        S.cover("delivered")
+        S.check("first-run-not-before-deferred_until", now >= T, info="handed to a normal consumer before deferred_until")
+    else:
+        S.cover("held-back")
+        S.check("not-forgotten-once-due", now <= T, info="deferred_until passed and the job was not delivered")
+
+
 HARNESSES = [
     Harness(
         name="H05-mem", scenario=h05_mem, workers=8,
@@ -220,6 +253,10 @@ HARNESSES = [
         functions=["connections/redis/message_broker.py:RedisMessageBroker.reject"],
         covers=["delivered", "held-back"],
     ),
+    Harness(
+        name="H05-job-deferred", scenario=h05_job, workers=4,
+        bounds={"enqueue instant, deferred_until (> enqueue), consume instant": "any µs in 2000..2050", "deferred_by": "absent or any µs in [1 s, 40 d]"},
+        functions=["job.py:Job.enqueue", "data/_parameters.py:Parameters.compute_next_execution_time"], covers=["delivered", "held-back"]),
     Harness(
         name="H05-rabbit-publish", scenario=h05_rabbit, params={"quick": {"via": "enqueue"}, "thorough": {"via": "enqueue"}},
         bounds={"due time, publish instant": "any microsecond in 2000..2100 (delays from negative to 100 years)"},
